@@ -234,6 +234,7 @@ let rec pnode_list = function PLeaf _ -> [] | PNode (nd, l, r) -> nd :: pnode_li
 let () =
   let ic = open_in Sys.argv.(1) in
   let data = ref [] and tree = ref (Leaf []) and n = ref 0 in
+  let scale = ref 1 in
   let kind = ref "kd" and pdata = ref [] and lct = ref None and khct = ref None and kern = ref (lin_k fq) in
   (try
     while true do
@@ -242,13 +243,20 @@ let () =
         | Some i -> String.sub l 0 i, String.sub l (i + 1) (String.length l - i - 1)
         | None -> l, "" in
       let toks = List.filter (fun x -> x <> "") (String.split_on_char ' ' main) in
+      (* "lc/8": coordinate scale 8 (real value = c/8, queries h/16); squared distances are printed in scaled integer units *)
+      let toks = (match toks with
+        | "D" :: k :: rest ->
+          (match String.index_opt k '/' with
+           | Some i -> scale := int_of_string (String.sub k (i + 1) (String.length k - i - 1)); "D" :: String.sub k 0 i :: rest
+           | None -> scale := 1; toks)
+        | _ -> toks) in
       match toks with
       | [] -> ()
       | "D" :: knd :: _bucket :: dim :: nn :: cs when knd <> "kd" ->
         let dim = int_of_string dim in
         n := int_of_string nn; kind := knd;
         let cs = Array.of_list (List.map int_of_string cs) in
-        pdata := List.init !n (fun i -> List.init dim (fun d -> qc_of_int cs.(i * dim + d)));
+        pdata := List.init !n (fun i -> List.init dim (fun d -> fq.odiv (qc_of_int cs.(i * dim + d)) (qc_of_int !scale)));
         kern := (if knd = "khc2" then poly2_k fq (qc_of_int 1) else lin_k fq);
         let e = String.trim extra in
         let fields = List.filter (fun x -> x <> "") (String.split_on_char ' ' e) in
@@ -309,9 +317,9 @@ let () =
         let r = nn_regress fq tiny_q huge_q (u = "1") (nat_of_int (int_of_string dl)) nb in
         Printf.printf "W %s\n" (String.concat "," (List.map (fun x -> g17 (float_of_qc x)) r))
       | "Q" :: hs when !kind <> "kd" ->
-        let q = List.map (fun h -> qmul (qc_of_int (int_of_string h)) (qc_make (z_of_int 1) (XO XH))) hs in
+        let q = List.map (fun h -> fq.odiv (qc_of_int (int_of_string h)) (qc_of_int (2 * !scale))) hs in
         let b = Buffer.create 1024 in
-        let sixteen = qc_of_int 16 in
+        let sixteen = qc_of_int (16 * !scale * !scale * (if !kind = "khc2" then !scale * !scale else 1)) in
         let tr, bounds, qk = (match !lct, !khct with
           | Some t, _ -> lc_query_trace fq !pdata t q (nat_of_int !n), pbounds fq (lc_funct fq) (fun nd -> nd.lc_thr) q [] t,
                          (fun k -> lc_query fq !pdata t q (nat_of_int k))
